@@ -171,4 +171,66 @@ pub fn run(ctx: &Ctx, rep: &mut Report) {
 		s.note = Some(format!("{} strings in batches of 50", n_batches * 50));
 	}
 	rep.extra.insert("period_strings".into(), json!(n_batches * 50));
+	if ctx.tier == Tier::Thorough {
+		run_fuzz(ctx, rep, 20_000_000);
+	}
+}
+
+// ---------------------------------------------------------------- libFuzzer (secondary engine, thorough tier)
+
+/// Coverage-guided campaign on the period parser with the same differential oracle
+/// (/verif/fuzz/fuzz_targets/period.rs includes the real acmed/src/duration.rs by path).
+pub fn run_fuzz(ctx: &Ctx, rep: &mut Report, runs: u64) {
+	if ctx.replay.is_some() || !section_enabled("fuzz") {
+		return;
+	}
+	let corpus = scratch_dir("fuzz-corpus");
+	if let Ok(rd) = std::fs::read_dir("/verif/fuzz/seeds/period") {
+		for e in rd.flatten() {
+			let _ = std::fs::copy(e.path(), corpus.join(e.file_name()));
+		}
+	}
+	let art = format!("{}/art-", corpus.display());
+	let out = std::process::Command::new("cargo")
+		.current_dir("/verif/fuzz")
+		.args(["+nightly", "fuzz", "run", "--fuzz-dir", "/verif/fuzz", "period"])
+		.arg(&corpus)
+		.arg("--")
+		.arg(format!("-runs={runs}"))
+		.arg(format!("-seed={}", (ctx.seed % 0x7fff_ffff).max(1)))
+		.args(["-max_len=64", "-len_control=0", "-print_final_stats=1"])
+		.arg(format!("-artifact_prefix={art}"))
+		.env("CARGO_NET_OFFLINE", "true")
+		.env("CARGO_TARGET_DIR", "/verif/.build/fuzz")
+		.output();
+	let out = match out {
+		Ok(o) => o,
+		Err(e) => {
+			rep.infra.push(format!("cannot run cargo fuzz: {e}"));
+			return;
+		}
+	};
+	let err = String::from_utf8_lossy(&out.stderr).to_string();
+	let crash = std::fs::read_dir(&corpus).ok().and_then(|rd| rd.flatten().map(|e| e.path()).find(|p| p.file_name().and_then(|n| n.to_str()).map(|n| n.starts_with("art-crash-") || n.starts_with("art-timeout-") || n.starts_with("art-oom-")).unwrap_or(false)));
+	let executed = err.lines().find_map(|l| l.strip_prefix("stat::number_of_executed_units:").map(|v| v.trim().parse::<u64>().unwrap_or(0))).unwrap_or(0);
+	let corpus_files = std::fs::read_dir(&corpus).map(|rd| rd.count()).unwrap_or(0);
+	rep.extra.insert("libfuzzer".into(), json!({"target": "period (acmed/src/duration.rs vs reference)", "runs_requested": runs, "executed_units": executed, "corpus_files": corpus_files, "crash": crash.is_some()}));
+	if let Some(p) = crash {
+		let bytes = std::fs::read(&p).unwrap_or_default();
+		let s = String::from_utf8_lossy(&bytes).to_string();
+		let why: String = err.lines().filter(|l| l.contains("panicked") || l.contains("C19 ")).take(3).collect::<Vec<_>>().join(" | ");
+		let case = PeriodBatch { strings: vec![s.clone()] };
+		// judged again by the proptest section's executor so that the replay file is an ordinary one
+		match exec_period_batch(&case) {
+			Outcome::Fail { signature, detail, .. } => run_list(ctx, rep, "fuzz", &[case], 1, &move |_| Outcome::Fail { signature: signature.clone(), detail: format!("found by libFuzzer: {detail}"), repro: None }),
+			_ => run_list(ctx, rep, "fuzz", &[case], 1, &move |_| Outcome::fail("C19:fuzz-crash", format!("libFuzzer crash on {s:?}: {why}"))),
+		}
+	} else if !out.status.success() {
+		let tail: String = err.lines().rev().take(8).collect::<Vec<_>>().into_iter().rev().collect::<Vec<_>>().join(" | ");
+		rep.infra.push(format!("cargo fuzz ended with {:?} without an artifact: {tail}", out.status.code()));
+	} else {
+		let ok = PeriodBatch { strings: vec![format!("<libFuzzer campaign: {executed} executions, {corpus_files} corpus files, no crash>")] };
+		run_list(ctx, rep, "fuzz", &[ok], 1, &|_| Outcome::pass(true, vec!["libfuzzer-campaign-clean".into()]));
+	}
+	let _ = std::fs::remove_dir_all(&corpus);
 }
